@@ -33,7 +33,7 @@ class C19World(SrcWorld):
     autoput = False
 
     def init_model(self, st):
-        st.m = {"cur": None, "stream": [], "covered": 0, "attempts": 0}
+        st.m = {"cur": None, "stream": [], "covered": 0, "attempts": 0, "naks": 0}
 
     def enabled(self, st):
         step = st.S.h.states.step.name
@@ -42,6 +42,9 @@ class C19World(SrcWorld):
             evs.append(("ackeof",))
         if step == "WAITING_FOR_FINISHED":
             evs.append(("fin", "NO_ERROR", "DATA_COMPLETE", "FILE_RETAINED"))
+        if step == "WAITING_FOR_EOF_ACK" and st.m["naks"] < self.cfg.get("naks", 0) and (st.m["cur"] or {}).get("variant") in ("valid", "valid_wide") \
+                and not (st.m["cur"] or {}).get("cancelled"):
+            evs.append(("nak", ((0, self.c["size"]),)))  # the whole file is re-requested: re-sent segments obey the same segment length
         if st.S.h.state.name == "BUSY" and st.m["cur"] is not None and st.m["stream"]:
             evs.append(("cancel", "right"))
         if st.m["attempts"] < self.cfg.get("max_attempts", 4) and st.nput < self.cfg.get("max_tx", 2) + 0:
@@ -73,6 +76,10 @@ class C19World(SrcWorld):
         if ev[0] == "cancel" and out.get("ret") is True:
             m["cur"] = dict(m["cur"], cancelled=True)
         stream = list(m["stream"])
+        if ev[0] == "nak":
+            m["naks"] += 1
+            st.m = m
+            return  # retransmissions are not part of the original stream
         for d in self.emitted(out):
             stream.append(d["T"])
             if d["T"] == "FD":
@@ -136,6 +143,15 @@ class C19World(SrcWorld):
         if cur.get("cancelled"):
             # after a cancel request: judged by C12; only the identification is checked here
             for d in emitted:
+                if d["seq"] != [cur["seq"], c["seqw"]]:
+                    bad("C19.seq", f"{d['T']} PDU carries sequence number {d['seq']}, expected {cur['seq']}")
+            return v
+        if ev[0] == "nak":
+            from checks.c07 import eff_seg
+            for d in emitted:
+                if d["T"] == "FD" and len(d["data"]) // 2 > eff_seg(ceff):
+                    bad("C19.segment_len_retransmission", f"re-sent File Data PDU carries {len(d['data']) // 2} bytes, the effective segment length "
+                                                          f"min(configured, derived from max_packet_len) is {eff_seg(ceff)}")
                 if d["seq"] != [cur["seq"], c["seqw"]]:
                     bad("C19.seq", f"{d['T']} PDU carries sequence number {d['seq']}, expected {cur['seq']}")
             return v
@@ -233,6 +249,7 @@ def configs(tier):
     # segment length: configured None / smaller / larger than derived (derived = 6 with mpl 20)
     for seg in (None, 4, 9):
         out.append(dict(mode="unack", closure=False, size=13, seg=seg, mpl=4 + 4 + 2 + 4 + 6, max_tx=1, max_attempts=2))
+        out.append(dict(mode="ack", closure=False, size=13, seg=seg, mpl=4 + 4 + 2 + 4 + 6, max_tx=1, max_attempts=1, naks=1))
     return out
 
 
